@@ -61,12 +61,12 @@ def _mset(shape, a, b, c):
 def agree(a: int, b: int, c: int, v: int, uid: bool) -> bool:
     """
     pre: uid == core.PARAMS["uid"] and 0 <= a <= core.PARAMS["hi"] and 0 <= b <= core.PARAMS["hi"] and 0 <= c <= core.PARAMS["hi"]
-    pre: 1 <= v <= max(1, core.PARAMS["n"])
+    pre: 1 <= v <= max(1, core.PARAMS["n"]) and core.PARAMS.get("alo", 0) <= a <= core.PARAMS.get("ahi", core.PARAMS["hi"])
     pre: (core.PARAMS["shape"] in (1, 5, 6) or b == 0 or core.PARAMS["shape"] == 4) and (core.PARAMS["shape"] == 6 or c == 0) and (core.PARAMS["shape"] not in (2, 4) or a == 0)
     post: _
     """
     hi = core.PARAMS["hi"]
-    return held(_agree, {"a": core.pick(a, 0, hi + 1), "b": core.pick(b, 0, hi + 1), "c": core.pick(c, 0, hi + 1), "v": core.pick(v, 1, max(1, core.PARAMS["n"]) + 1), "uid": core.PARAMS["uid"]})
+    return held(_agree, {"a": core.pick(a, core.PARAMS.get("alo", 0), core.PARAMS.get("ahi", hi) + 1), "b": core.pick(b, 0, hi + 1), "c": core.pick(c, 0, hi + 1), "v": core.pick(v, 1, max(1, core.PARAMS["n"]) + 1), "uid": core.PARAMS["uid"]})
 
 
 def _agree(a, b, c, v, uid):
@@ -138,7 +138,10 @@ def jobs(tier):
                 hi = min(hi, 9)
             for shape in range(len(SHAPES)):
                 for slack in ((0, 2) if uid and n else (0,)):
-                    js.append({"name": f"agree[n={n},uid={int(uid)},{SHAPES[shape]},slack={slack}]", "fn": "agree", "params": {"n": n, "uid": uid, "shape": shape, "hi": hi, "slack": slack}, "timeout": T, "per_path": 90})
+                    # the three-operand shape has (hi+1)^3 operand values: split on the first operand
+                    parts = [(lo, min(lo + 1, hi)) for lo in range(0, hi + 1, 2)] if SHAPES[shape].count(",") and SHAPES[shape].count(":") and hi > 4 else [(0, hi)]
+                    for alo, ahi in parts:
+                        js.append({"name": f"agree[n={n},uid={int(uid)},{SHAPES[shape]},slack={slack}" + (f",a={alo}..{ahi}]" if len(parts) > 1 else "]"), "fn": "agree", "params": {"n": n, "uid": uid, "shape": shape, "hi": hi, "slack": slack, "alo": alo, "ahi": ahi}, "timeout": T, "per_path": 90})
     return js + _plans.mboxops_jobs("C15", tier)
 
 
